@@ -409,6 +409,10 @@ def run(prog, rep, tier):
         for g in gets:
             o = origins(body, [g.term.args[0].place[0]], through_calls=False)
             if not any(f[-1] in ('metadata', 'files_info') and 'metadata' in f for f in o.fields):
-                ok = False
+                # `self.metadata.as_ref().ok_or(..)?` and similar: the receiver must-derives, through value-preserving wrappers, from self.metadata
+                def from_meta(k, ob, bb):
+                    return k == 'assign' and ob.kind == 'assign' and ob.rv is not None and any(pl[0] == 1 and 'metadata' in place_fields(pl) for pl in ob.rv.src_places())
+                if not must_derive(body, g.term.args[0].place[0], from_meta, extra_transparent=('ok_or', 'ok_or_else', 'as_ref', 'branch', 'unwrap', 'expect')):
+                    ok = False
         rep.ob('R03.4', ok, 'R03.4|ArchiveReader::%s|metadata' % name,
                'names/offsets looked up in self.metadata.files_info' if ok else 'lookup does not come from self.metadata', body.loc())
